@@ -415,7 +415,8 @@ class Report:
         if real:
             d = os.path.join(REPLAYS, self.pid)
             os.makedirs(d, exist_ok=True)
-            for i, (what, obj) in enumerate(real[:20]):
+            log("%d violations; the first %d are written out" % (len(real), min(len(real), 5)))
+            for i, (what, obj) in enumerate(real[:5]):
                 path = os.path.join(d, "%d.json" % i)
                 with open(path, "w") as f:
                     json.dump({"property": self.pid, "what": what, "seed": self.seed,
